@@ -350,13 +350,35 @@ pub fn gen_smb1_negotiate(rng: &mut Rng) -> Vec<u8> {
         d.extend_from_slice(rng.pick(&["NT LM 0.12", "NT LM 0.12", "SMB 2.002", "SMB 2.???"]).as_bytes());
         d.push(0);
     }
+    if d.is_empty() && rng.chance(1, 10) {
+        // many dialects and none the responder knows (some clients are that old, some scanners that
+        // creative): names of any bytes but NUL, more than a kilobyte of them in all
+        let count = *rng.pick(&[40usize, 100, 128, 200]);
+        let high = rng.chance(1, 2);
+        let dense = high && rng.chance(1, 2);
+        for k in 0..count {
+            d.push(2u8);
+            let l = rng.range(4, 14) as usize;
+            for j in 0..l {
+                let c = if high && (dense || rng.chance(1, 6)) { rng.range(0x80, 0xff) as u8 } else { rng.range(0x21, 0x7e) as u8 };
+                d.push(if j == 0 { b'A' + (k % 26) as u8 } else { c });
+            }
+            d.push(0);
+        }
+        let mut m = h.encode();
+        m.push(0);
+        m.extend_from_slice(&(d.len() as u16).to_le_bytes());
+        m.extend_from_slice(&d);
+        return nbt(&m);
+    }
     let n = if d.is_empty() { rng.range(1, 8) as usize } else { rng.below(2) as usize };
     for _ in 0..n {
         d.push(2u8);
         let name: Vec<u8> = match rng.below(6) {
             0 => {
                 let l = rng.range(1, 12) as usize;
-                (0..l).map(|_| rng.range(0x21, 0x7e) as u8).collect()
+                let high = rng.chance(1, 3);
+                (0..l).map(|_| if high && rng.chance(1, 3) { rng.range(0x80, 0xff) as u8 } else { rng.range(0x21, 0x7e) as u8 }).collect()
             }
             _ => rng.pick(&SMB1_DIALECTS).as_bytes().to_vec(),
         };
